@@ -173,7 +173,7 @@ theorem find_key_perm (s₁ s₂ : List (String × String)) (hp : s₁.Perm s₂
 def diskFiles (g : Global) (d : PkgData) : List File := selected g d.goFiles ++ d.altFiles ++ d.otherFiles
 
 /-- all digested files of a unit: target extra files + the files of every package of the tree -/
-def Inputs.files (i : Inputs) : List File := i.1.extraFiles ++ i.2.all.flatMap (diskFiles i.1)
+def Inputs.files (i : Inputs) : List File := i.1.extraFiles.map File.noOverlay ++ i.2.all.flatMap (diskFiles i.1)
 
 /-- **H1** an edit that keeps path and size also changes the modification time (disk files; overlay files are
     content-hashed) -/
@@ -318,7 +318,7 @@ theorem OptLevel.flag_inj {a b : OptLevel} (h : a.flag = b.flag) : a = b := by
 /-! ## key ⇒ relevant -/
 
 theorem globRel_of_sections (hinj : Function.Injective hb) (g₁ g₂ : Global)
-    (hm : ∀ f₁ ∈ g₁.extraFiles, ∀ f₂ ∈ g₂.extraFiles, f₁.overlay = none → f₂.overlay = none → f₁.path = f₂.path →
+    (hm : ∀ f₁ ∈ g₁.extraFiles.map File.noOverlay, ∀ f₂ ∈ g₂.extraFiles.map File.noOverlay, f₁.overlay = none → f₂.overlay = none → f₁.path = f₂.path →
       f₁.size = f₂.size → f₁.mtime = f₂.mtime → f₁.content = f₂.content)
     (henv : compilerEnvVars.map (getenv g₁) = compilerEnvVars.map (getenv g₂))
     (he : envSection g₁ = envSection g₂) (hc : commonSection hb g₁ = commonSection hb g₂) :
